@@ -56,11 +56,6 @@ Definition user_model (ms : list mset) (tries : list (list prefix128)) (o : obs_
   match_sets {| mt_sets := ms; mt_tries := tries |} (fun _ => match op_bm o with Some w => w | None => [] end)
              (args_of_packet (op_pk o)).
 
-(* the hypothesis of the partial theorem: the two process-name guards agree on this probe *)
-Definition pname_guard_ok (ms : list mset) (pk : packet) (wan : bool) : bool :=
-  Bool.eqb wan (negb (nth 0 (p_pname pk) 0 =? 0)) ||
-  forallb (fun m => negb (m_type m =? MatchType_ProcessName) || negb (list_eqb (nth16 (m_pname m)) (p_pname pk))) ms.
-
 Definition with_index {A} (l : list A) : list (N * A) := combine (map N.of_nat (seq 0 (List.length l))) l.
 
 (* error codes (second component):
